@@ -142,9 +142,10 @@ def vm_compute_lines(prelude, exprs, timeout=600, tag='cases'):
         res.append(p)
     return res
 
-def enc(s): return ','.join(str(ord(c)) for c in s)
+USED = set()      # every character handed to the model in this process
+def enc(s): USED.update(s); return ','.join(str(ord(c)) for c in s)
 def dec(s): return ''.join(chr(int(x)) for x in s.split(',') if x)
-def coq_str(s): return '[' + ';'.join('%d%%N' % ord(c) for c in s) + ']'
+def coq_str(s): USED.update(s); return '[' + ';'.join('%d%%N' % ord(c) for c in s) + ']'
 def coq_N_list_to_py(s):
     return ''.join(chr(int(x)) for x in re.findall(r'(\d+)%N', s)) if '%N' in s else ''.join(chr(int(x)) for x in re.findall(r'\d+', s))
 
@@ -215,6 +216,9 @@ class Check:
         if distinct is not None: self.cov['distinct_nontrivial'] = distinct
         if extra: self.cov.update(extra)
         # decision
+        tb = char_table_mismatches(); up = used_char_problems()
+        self.cov['char_tables'] = {'unicode_swept_for_whitespace': 0x110000, 'exact_below': EXACT_UPTO, 'mismatches': len(tb), 'characters_given_to_the_model': len(USED), 'given_outside_exact_range_with_a_class': up[:10]}
+        if tb or up: self.corr_broken.append(('character class tables (Chars.v / Inst.v) vs Python str.isspace / \\w / isupper / islower', {'table_mismatches': tb[:20], 'used_outside_exact_range': up[:20]}))
         out_lines = []
         vio = list(self.violations)
         concrete = [v for v in vio if not v['no_failing_input_found']]
@@ -249,3 +253,31 @@ class Check:
             self.pid, self.tier, self.seed, self.cov['evaluations'], self.cov['distinct_nontrivial'], self.cov['obligations'],
             self.cov['discharged'], time.time() - self.t0, 'VIOLATIONS=%d' % len(report) if report else 'OK'))
         return 1 if report else 0
+
+
+# ---- character tables: Base/Chars.v + Model/Inst.v against Python, on every run
+EXACT_UPTO = 0x250
+def py_classes(ch):
+    import unicodedata
+    return (1 if ch.isspace() else 0) + (2 if (ch.isalnum() or ch == '_') else 0) + (4 if ch.isupper() else 0) + (8 if (ch.islower() or unicodedata.category(ch) == 'Lt') else 0)
+_TABLE = {}
+def char_table_mismatches():
+    """code points on which the model's class tables differ from Python's: whitespace over all of Unicode, word / upper /
+    lower exactly below U+0250 (above it the model calls every character non-word and uncased: such characters must not be
+    handed to the model - see used_char_problems)"""
+    if 'bad' in _TABLE: return _TABLE['bad']
+    step = 4096; lines = ['%d %d' % (a, min(a + step, 0x110000)) for a in range(0, 0x110000, step)]
+    out = run_driver('chars', lines, shards=NPROC)
+    bad = []; model = {}
+    for ln, o in zip(lines, out):
+        a = int(ln.split()[0])
+        for k, x in enumerate(o):
+            v = ord(x) - 65; c = a + k; pc = py_classes(chr(c))
+            if (v & 1) != (pc & 1): bad.append((c, 'space', v, pc))
+            if c < EXACT_UPTO and v != pc: bad.append((c, 'classes', v, pc))
+            if c >= EXACT_UPTO and v & 14: bad.append((c, 'model claims a class above the exact range', v, pc))
+    _TABLE['bad'] = bad
+    return bad
+def used_char_problems():
+    """characters given to the model on which its tables are not exact"""
+    return sorted(ord(c) for c in USED if ord(c) >= EXACT_UPTO and (py_classes(c) & 14))
